@@ -20,6 +20,8 @@ _I64 = numpy.dtype("int64")
 def _shape(size):
     if size is None:
         return ()
+    if isinstance(size, SV):
+        return (operator.index(size),)     # symbolic count: forks over its values
     if isinstance(size, (int, numpy.integer)):
         return (int(size),)
     if isinstance(size, SymArray):
